@@ -73,6 +73,7 @@ type Knobs struct {
 	PSoftSibling    int  // a soft group leaf gets a sibling whose constructor feeds that group (C11)
 	PReencode       int  // C15: probability that a function gets an alternative equivalent encoding
 	PReenter        int  // C02: probability that a constructor body calls back into the container
+	PDeclIn         int  // a function gets a declared ignore-unexported parameter object (unexported fields between the exported ones)
 
 	// Case-level switches
 	NoDecorators   bool
@@ -94,17 +95,19 @@ func DefaultKnobs() Knobs {
 		PFault: 0, PPanic: 30, PDecoSelf: 75, PDecoGroup: 25, PDecoMulti: 20, PDecoExtra: 30,
 		PInvokeAll: 96, PInfo: 0, PCallback: 0, PDefer: 15, PRecover: 30, PHole: 40, PLate: 70, PCycleKeep: 5,
 		NoFaults: true, AvoidDecoCycle: true, PreferAvailable: true,
+		PDeclIn: 6,
 	}
 }
 
 type gen struct {
-	focus  []MKey // keys of the last deliberately rejected registration
-	t      *rapid.T
-	k      Knobs
-	m      *Model // predicted registrations
-	nextID int
-	c      *Case
-	nscope int
+	plainDecl bool   // encode the leaves of declared objects as ordinary leaves (C15's alternative encoding)
+	focus     []MKey // keys of the last deliberately rejected registration
+	t         *rapid.T
+	k         Knobs
+	m         *Model // predicted registrations
+	nextID    int
+	c         *Case
+	nscope    int
 }
 
 func (g *gen) pct(p int, label string) bool {
@@ -219,6 +222,49 @@ type pleaf struct {
 	opt      bool
 	soft     bool
 	withPrev bool // placed in the same parameter object as the previous leaf
+	// leaf declI of declN of one declared parameter object (types.go)
+	decl         string
+	declI, declN int
+}
+
+// declLeaves draws a declared ignore-unexported parameter object, mostly one
+// whose required single keys are visible from s.
+func (g *gen) declLeaves(singles []MKey) []pleaf {
+	has := map[MKey]bool{}
+	for _, k := range singles {
+		has[k] = true
+	}
+	var good []string
+	var usable []string
+	for _, n := range DeclInNames {
+		ok, allowed := true, true
+		for _, l := range leavesOf([]Param{DeclParam(n)}) {
+			if !l.IsGroup && !l.Opt && !has[l.Key] {
+				ok = false
+			}
+			if l.Soft && g.k.PSoft == 0 {
+				allowed = false
+			}
+		}
+		if !allowed {
+			continue
+		}
+		usable = append(usable, n)
+		if ok {
+			good = append(good, n)
+		}
+	}
+	from := usable
+	if len(good) > 0 && g.pct(g.k.PAvail, "declavail") {
+		from = good
+	}
+	n := g.pickStr(from, "decl")
+	ls := leavesOf([]Param{DeclParam(n)})
+	var out []pleaf
+	for i, l := range ls {
+		out = append(out, pleaf{key: l.Key, opt: l.Opt, soft: l.Soft, decl: n, declI: i, declN: len(ls)})
+	}
+	return out
 }
 
 // drawParamLeaves draws n parameter leaves for a function viewing from s.
@@ -281,6 +327,9 @@ func (g *gen) drawParamLeaves(s, n int, pAvail int, allowGroups bool) []pleaf {
 			}
 		}
 	}
+	if n > 0 && allowGroups && !g.k.NoGroups && g.pct(g.k.PDeclIn, "declin") {
+		out = append(out, g.declLeaves(singles)...)
+	}
 	return out
 }
 
@@ -292,12 +341,43 @@ func (l pleaf) param() Param {
 func (l pleaf) needsObj() bool { return l.key.Name != "" || l.opt || l.key.Group != "" }
 
 // encodeParams folds leaves into positional parameters and In objects.
+// pruneDecl drops runs of declared-object leaves that a caller cut short.
+func pruneDecl(leaves []pleaf) []pleaf {
+	var out []pleaf
+	for i := 0; i < len(leaves); i++ {
+		l := leaves[i]
+		if l.decl == "" {
+			out = append(out, l)
+			continue
+		}
+		if l.declI == 0 && i+l.declN <= len(leaves) && leaves[i+l.declN-1].decl == l.decl && leaves[i+l.declN-1].declI == l.declN-1 {
+			out = append(out, leaves[i:i+l.declN]...)
+			i += l.declN - 1
+		}
+	}
+	return out
+}
+
 func (g *gen) encodeParams(leaves []pleaf) []Param {
+	leaves = pruneDecl(leaves)
 	var out []Param
 	var objs [][]Param
 	lastObj := -1
 	for i, l := range leaves {
 		lbl := fmt.Sprintf("enc%d", i)
+		if l.decl != "" && !g.plainDecl {
+			// a complete run of the leaves of one declared object becomes
+			// that object
+			if l.declI == 0 {
+				dp := DeclParam(l.decl)
+				if g.pct(30, lbl+"declwrap") {
+					dp = Param{IsObj: true, Obj: []Param{dp}}
+				}
+				out = append(out, dp)
+			}
+			lastObj = -1
+			continue
+		}
 		if l.withPrev && lastObj >= 0 {
 			objs[lastObj] = append(objs[lastObj], l.param())
 			continue
@@ -326,6 +406,22 @@ func (g *gen) encodeParams(leaves []pleaf) []Param {
 		}
 	}
 	return out
+}
+
+// encodeParamsAlt: the alternative encoding of C15 mostly spells the fields
+// of a declared ignore-unexported object out as ordinary parameters.
+func (g *gen) encodeParamsAlt(leaves []pleaf) []Param {
+	hasDecl := false
+	for _, l := range leaves {
+		if l.decl != "" {
+			hasDecl = true
+		}
+	}
+	if hasDecl && g.pct(70, "altplaindecl") {
+		g.plainDecl = true
+		defer func() { g.plainDecl = false }()
+	}
+	return g.encodeParams(leaves)
 }
 
 func (g *gen) nestParams(fields []Param, lbl string, depth int) Param {
@@ -654,7 +750,7 @@ func (g *gen) genProvide(s int) Op {
 	if g.pct(g.k.PReencode, "reenc") {
 		af := &Fn{ID: f.ID, Err: f.Err, Var: f.Var, Faults: f.Faults, Dur: f.Dur}
 		ao := *o
-		af.P = g.encodeParams(pl)
+		af.P = g.encodeParamsAlt(pl)
 		switch {
 		case useAs:
 			af.R = f.R // As needs the positional/option form
@@ -768,7 +864,7 @@ func (g *gen) genDecorate(s int) (Op, bool) {
 	var altF *Fn
 	if g.pct(g.k.PReencode, "reenc") {
 		af := &Fn{ID: f.ID, Err: f.Err, Var: f.Var, Faults: f.Faults, Dur: f.Dur}
-		af.P = g.encodeParams(pl)
+		af.P = g.encodeParamsAlt(pl)
 		af.R = g.encodeResults(rl, g.pct(50, "forceobj"))
 		if af.Var == "" && g.pct(40, "addvar") {
 			af.Var = g.pickStr(g.k.Types, "avart")
@@ -862,7 +958,7 @@ func (g *gen) genInvoke(s int) Op {
 	g.faults(f)
 	if g.pct(g.k.PReencode, "reenc") {
 		af := &Fn{ID: f.ID, Err: f.Err, Faults: f.Faults}
-		af.P = g.encodeParams(ipl)
+		af.P = g.encodeParamsAlt(ipl)
 		if g.pct(40, "addvar") {
 			af.Var = g.pickStr(g.k.Types, "avart")
 		}
